@@ -19,7 +19,8 @@ RULE = ("yield points: loads/stores of __coords/__precompute of shared point obj
         "module-level / class-level containers, and of ANY other attribute that is found stored on a shared object (point, "
         "VerifyingKey, SigningKey, Public_key, Private_key) while the task runs — found by a sequential profiling run of the "
         "operations or during the exploration, which then starts again (`extra_state` in the results; none on the "
-        "unchanged tree); oracle: every result equals a sequential value, the cells hold only allowed values, and after "
+        "unchanged tree), and every step of a Python-level loop in a function that takes the `__dict__` of a shared object "
+        "(none on the unchanged tree: `__getstate__` is one `dict.copy()`); oracle: every result equals a sequential value, the cells hold only allowed values, and after "
         "every distinct final state each operation run once more ALONE still returns its sequential value; "
         "all interleavings of 2 threads x all pairs of "
         "{x, y, scale, to_affine, ==, +, double, neg, * k, mul_add, pickle, verify} x {plain point (z != 1), generator "
@@ -178,9 +179,14 @@ def _scan(code, shared_names):
                 alias[nxt.argval] = "global"
             elif ins.opname == "LOAD_ATTR" and ins.argval in FIELDS and FIELDS[ins.argval] != "dict":
                 alias[nxt.argval] = "field"
+    loads_dict = any(i.opname == "LOAD_ATTR" and i.argval == "__dict__" for i in ins_list)
     prev = prev2 = None
     for ins in ins_list:
-        if ins.opname in ("LOAD_ATTR", "STORE_ATTR") and ins.argval == "point" and prev is not None:
+        if ins.opname == "FOR_ITER" and loads_dict:
+            # a Python-level loop in a function that takes `obj.__dict__`: every iteration step is a yield point when the
+            # dict belongs to a shared object (a concurrent first store of a new attribute changes its size)
+            m[ins.offset] = ("DI", "-", None)
+        elif ins.opname in ("LOAD_ATTR", "STORE_ATTR") and ins.argval == "point" and prev is not None:
             # the key's reference to its point object: `self.point` (Public_key) / `self.pubkey.point` (VerifyingKey)
             if prev.opname.startswith("LOAD_FAST"):
                 m[ins.offset] = ("PW" if ins.opname == "STORE_ATTR" else "PR", prev.argval, None)
@@ -230,6 +236,11 @@ def _callback(code, offset):
         return None
     kind, recv, field = acc
     if recv is None:
+        return None
+    if kind == "DI":
+        rec = run.dict_owner.get(run.sched.me())
+        if rec is not None and rec[0] is code:
+            run.sched.yield_point(("R", rec[1], "dictiter"))
         return None
     if kind in ("XR", "XW"):
         via, name = field
@@ -283,8 +294,11 @@ def _callback(code, offset):
     if k is None:
         k = run.publish(obj)
         if k is None:
+            if field == "dict":
+                run.dict_owner.pop(run.sched.me(), None)
             return None
     if field == "dict":
+        run.dict_owner[run.sched.me()] = (code, k)
         # pickling snapshot: both cells are read by one dict.copy(); two scheduler steps (model: two reads)
         run.sched.yield_point(("R", k, "coords"))
         run.sched.yield_point(("R", k, "pre"))
@@ -685,6 +699,7 @@ class Exec(Run):
         self.fns = [thread_fn(scn, n) for n in opnames]
         self.sched = None
         self.reads = [[] for _ in opnames]     # per thread: what it has read so far (digest)
+        self.dict_owner = {}                   # thread -> (code object, shared object whose __dict__ it took)
         self.heaps = []
 
     def go(self, chooser):
@@ -727,6 +742,8 @@ class Exec(Run):
         elif p is not None and p[1] == "K":
             if p[0] == "R":
                 self.reads[j].append(("K", self.index_of(self.vk.pubkey.point)))
+        elif p is not None and p[0] == "R" and p[2] == "dictiter":
+            self.reads[j].append((p[1], "dictiter", tuple(sorted(vars(self.objs[p[1]])))))
         elif p is not None and p[0] == "R":
             v = self.cell(p[1], p[2])
             self.reads[j].append((p[1], p[2], tuple(v) if p[2] == "coords" else len(v)))
